@@ -1,0 +1,37 @@
+//go:build verif
+
+package tls
+
+import "errors"
+
+// Verification-only helpers of the Flight family (C07/C33/C34). Add-only, no call site.
+
+// VerifFlightSendKeyUpdate originates a TLS 1.3 KeyUpdate on an established connection (the public
+// API cannot). The message passes through the same outgoing rewrite hook as every other handshake
+// message, then the sender's traffic secret is advanced exactly as handleKeyUpdate does for its reply.
+func VerifFlightSendKeyUpdate(c *Conn, requestUpdate bool) error {
+	if c.vers != VersionTLS13 {
+		return errors.New("verif: KeyUpdate needs TLS 1.3")
+	}
+	cipherSuite := cipherSuiteTLS13ByID(c.cipherSuite)
+	if cipherSuite == nil {
+		return errors.New("verif: no TLS 1.3 cipher suite")
+	}
+	c.out.Lock()
+	defer c.out.Unlock()
+	msg := &keyUpdateMsg{updateRequested: requestUpdate}
+	data, err := msg.marshal()
+	if err != nil {
+		return err
+	}
+	data = verifOutgoing(c, data)
+	if _, err = c.writeRecordLocked(recordTypeHandshake, data); err != nil {
+		return err
+	}
+	newSecret := cipherSuite.nextTrafficSecret(c.out.trafficSecret)
+	c.out.setTrafficSecret(cipherSuite, QUICEncryptionLevelInitial, newSecret)
+	return nil
+}
+
+// VerifFlightClearOverride forgets the override of a Config (scenario runners create one Config per scenario).
+func VerifFlightClearOverride(cfg *Config) { verifOverrides.Delete(cfg) }
